@@ -73,4 +73,208 @@ example : V2.parseP [0x0D, 0x0A] = .val (.error (.incomplete 2)) := by decide
 example : (V2.Iter.ofBytes [4, 0xFF, 0xFF]).nextP =
     .val (some (.error (.invalidTLV 4 65535), { bytes := [4, 0xFF, 0xFF], offset := 3 })) := by decide
 
+/-! ### Additions after audit 4
+
+Correction to the doc comment of `v2_accessors_no_panic` above: `Display` for `v2::Header`
+is *not* free of partial operations, it calls `self.length()` (`src/v2/model.rs:141-151`);
+`v2_display_no_panic` below covers it. -/
+
+/-- "every … formatter": `impl Display for v2::Header` calls `self.length()`, i.e. the
+partial slice `self.header[16..]`; on every accepted header it returns normally with the
+text of the pure model. (The v1 `Display` impls copy `self.header` / format total `std`
+values and have no partial operation.) -/
+theorem v2_display_no_panic {x : B} {h : V2.Header} (hp : V2.parse x = .ok h) :
+    h.displayP = .val h.display :=
+  V2.Header.displayP_eq h (V2.accepted_len hp)
+
+/-- Non-vacuity: `displayP` does panic on a header value that no parser returns (fewer than
+16 bytes), and does not on the accepted minimal LOCAL header. -/
+example : V2.Header.displayP
+    { header := [0x0D, 0x0A], version := .two, command := .loc, protocol := .unspec,
+      addresses := .unspec } = .panic := by decide
+example : (V2.parse [0x0D, 0x0A, 0x0D, 0x0A, 0x00, 0x0D, 0x0A, 0x51, 0x55, 0x49, 0x54, 0x0A,
+    0x20, 0x00, 0x00, 0x00]).toOption.map (fun h => h.lengthP) = some (.val 0) := by decide
+
+/-- The whole loop in the panic layer: any number of `next` calls, each through `nextP`. -/
+theorem tlv_run_no_panic (fuel : Nat) (it : V2.Iter) :
+    V2.Iter.runP fuel it = .val (V2.Iter.run fuel it) := V2.runP_eq fuel it
+
+/-- "accessors … and TLV iteration on the values they return", end to end in the panic
+layer: `header.tlvs().collect()` on an accepted header (the partial `tlv_bytes()` slice,
+then the loop over the partial `next`) returns normally, with exactly the items of the pure
+model, for every step cap `f` larger than the section (the Rust loop has no cap). -/
+theorem tlvs_no_panic {x : B} {h : V2.Header} (hp : V2.parse x = .ok h) (f : Nat)
+    (hf : h.tlvBytes.length < f) :
+    (do let bs ← h.tlvBytesP; V2.Iter.runP f (V2.Iter.ofBytes bs)) = .val h.tlvs := by
+  rw [(V2.accepted_accessors hp).2.2.2]
+  simp only [Outcome.val_bind]
+  rw [V2.runP_eq, C11.fuel_irrelevant _ _ hf]
+  rfl
+
+/-- Non-vacuity of `tlvs_no_panic`: an accepted IPv4 header with a 4-byte section, cap 5. -/
+example : (V2.parse [0x0D, 0x0A, 0x0D, 0x0A, 0x00, 0x0D, 0x0A, 0x51, 0x55, 0x49, 0x54, 0x0A,
+    0x21, 0x11, 0x00, 0x10, 127, 0, 0, 1, 192, 168, 1, 1, 0, 80, 1, 187, 4, 0, 1, 42]).toOption.map
+    (fun h => (h.tlvBytes.length, (do let bs ← h.tlvBytesP; V2.Iter.runP 5 (V2.Iter.ofBytes bs)))) =
+    some (4, .val [.ok ⟨4, [42]⟩]) := by decide
+
+/-- "Iterating a TLV section of n bytes ends after at most n/3 + 1 items", about `next`
+itself and with no fuel anywhere: after some `k ≤ n / 3 + 1` calls that each yielded an
+item, the next call returns `None`. -/
+theorem tlv_ends (bs : B) :
+    ∃ k, k ≤ bs.length / 3 + 1 ∧ ∃ it, V2.Iter.iterate k (V2.Iter.ofBytes bs) = some it ∧
+      it.next = none :=
+  V2.iterate_ends bs.length (V2.Iter.ofBytes bs) rfl
+
+/-- Non-vacuity / tightness of `tlv_ends`: a 4-byte section (4 / 3 + 1 = 2) needs exactly
+two items (one TLV, one `Leftovers` error) before `None`. -/
+example : (V2.Iter.iterate 2 (V2.Iter.ofBytes [4, 0, 0, 9])).map (fun it => (it, it.next)) =
+    some ({ bytes := [4, 0, 0, 9], offset := 4 }, none) := by decide
+
+/-- `HeaderResult::parse` returns the values of the two dedicated parsers, so the accessor
+theorems (whose hypotheses are `V1.parseBytes x = .ok h` / `V2.parse x = .ok h`) apply to
+the values it returns. -/
+theorem auto_accessors (x : B) :
+    (∀ r, Auto.parse x = .v1 r → r = V1.parseBytes x) ∧
+    (∀ r, Auto.parse x = .v2 r → r = V2.parse x) := by
+  unfold Auto.parse
+  constructor <;> intro r hr <;> dsimp only at hr <;> split at hr <;> cases hr <;> rfl
+
+/-- Accessors, formatter and TLV iteration on the headers `HeaderResult::parse` returns. -/
+theorem auto_accessors_no_panic (x : B) :
+    (∀ h, Auto.parse x = .v1 (.ok h) → h.addressesStrP = .val h.addressesStr) ∧
+    (∀ h, Auto.parse x = .v2 (.ok h) →
+      h.lengthP = .val h.length ∧ h.addressBytesEndP = .val h.addressBytesEnd ∧
+      h.addressBytesP = .val h.addressBytes ∧ h.tlvBytesP = .val h.tlvBytes ∧
+      h.displayP = .val h.display ∧
+      ∀ f, h.tlvBytes.length < f →
+        (do let bs ← h.tlvBytesP; V2.Iter.runP f (V2.Iter.ofBytes bs)) = .val h.tlvs) := by
+  obtain ⟨a1, a2⟩ := auto_accessors x
+  constructor
+  · intro h hh
+    exact v1_accessors_no_panic.1 (a1 _ hh).symm
+  · intro h hh
+    have hp : V2.parse x = .ok h := (a2 _ hh).symm
+    obtain ⟨p1, p2, p3, p4⟩ := v2_accessors_no_panic hp
+    exact ⟨p1, p2, p3, p4, v2_display_no_panic hp, fun f hf => tlvs_no_panic hp f hf⟩
+
+/-- Non-vacuity: both tags occur with an accepted header. -/
+example : (Auto.parse [0x0D, 0x0A, 0x0D, 0x0A, 0x00, 0x0D, 0x0A, 0x51, 0x55, 0x49, 0x54, 0x0A,
+    0x20, 0x00, 0x00, 0x00]).isV2 = true ∧
+    (Auto.parse [0x0D, 0x0A, 0x0D, 0x0A, 0x00, 0x0D, 0x0A, 0x51, 0x55, 0x49, 0x54, 0x0A,
+    0x20, 0x00, 0x00, 0x00]).cls = .ok := by decide
+example : (Auto.parse [0x50, 0x52, 0x4F, 0x58, 0x59, 0x20, 0x55, 0x4E, 0x4B, 0x4E, 0x4F, 0x57, 0x4E,
+    0x0D, 0x0A]).isV2 = false ∧
+    (Auto.parse [0x50, 0x52, 0x4F, 0x58, 0x59, 0x20, 0x55, 0x4E, 0x4B, 0x4E, 0x4F, 0x57, 0x4E,
+    0x0D, 0x0A]).cls = .ok := by decide
+
+/-- "&str / FromStr entry points": `impl FromStr for Header<'static>` is
+`Header::try_from(s)?.to_owned()`; it adds no partial operation. -/
+theorem fromStrHeader_no_panic (x : B) (hx : Utf8.valid x = true) :
+    V1.fromStrHeaderP x = .val (V1.fromStrHeader x) := by
+  unfold V1.fromStrHeaderP V1.fromStrHeader
+  rw [parseStr_no_panic x hx]
+  cases V1.parseStr x <;> rfl
+
+/-- `impl FromStr for Addresses` is `Header::try_from(s)?.addresses`. -/
+theorem fromStrAddresses_no_panic (x : B) (hx : Utf8.valid x = true) :
+    V1.fromStrAddressesP x = .val (V1.fromStrAddresses x) := by
+  unfold V1.fromStrAddressesP V1.fromStrAddresses
+  rw [parseStr_no_panic x hx]
+  cases V1.parseStr x <;> rfl
+
+/-- Non-vacuity: the adversarial `&str` of the property text (`"\r€"`) is valid UTF-8 and
+goes through both `FromStr` impls. -/
+example : Utf8.valid [0x0D, 0xE2, 0x82, 0xAC] = true ∧
+    V1.fromStrHeaderP [0x0D, 0xE2, 0x82, 0xAC] = .val (.error .invalidSuffix) ∧
+    V1.fromStrAddressesP [0x0D, 0xE2, 0x82, 0xAC] = .val (.error .invalidSuffix) := by decide
+
+/-- "no panic (including arithmetic overflow in overflow-checked builds)", the additions.
+The model computes every `usize` sum on unbounded `Nat` (assumption A3); this theorem lists
+every addition in the parsers, the accessors and the iterator with its exact bound:
+
+* `MINIMUM_LENGTH + length` (`v2/mod.rs:133`) is at most 65551;
+* `MINIMUM_LENGTH + address_family_bytes` (`v2/mod.rs:142`) is at most 232;
+* `MINIMUM_TLV_LENGTH + length as usize` (`v2/model.rs:251`) is at most 65538;
+* `self.offset += tlv_length` (`v2/model.rs:258`, executed on the item path only): the new
+  cursor is that sum and it is at most the section length;
+* `MINIMUM_LENGTH + min(address_bytes, length)` (`v2/model.rs:191`) is at most the header
+  length + 16 on any header value, and at most the header length once 16 bytes are there;
+* `suffix + PROTOCOL_SUFFIX.len()` (`v1/mod.rs:189,208`) is at most the input length + 1,
+  and `index + 1` (`v1/mod.rs:44`) at most the input length;
+* `PROTOCOL_PREFIX.len() + 1 + protocol().len()` (`v1/model.rs:126`) is at most 13. -/
+theorem sums_bounded :
+    (∀ a b : UInt8, V2.minLen + be16 a b ≤ 65551) ∧
+    (∀ f : V2.Family, V2.minLen + f.size ≤ 232) ∧
+    (∀ a b : UInt8, V2.minTlvLen + be16 a b ≤ 65538) ∧
+    (∀ (it it' : V2.Iter) (t : V2.Tlv), it.next = some (.ok t, it') →
+      it'.offset = it.offset + (V2.minTlvLen + t.value.length) ∧
+      it'.offset ≤ it.bytes.length) ∧
+    (∀ h : V2.Header, h.addressBytesEnd ≤ h.header.length + 16 ∧
+      (16 ≤ h.header.length → h.addressBytesEnd ≤ h.header.length)) ∧
+    (∀ (x : B) (i : Nat), V1.firstCR x = some i →
+      i + V1.CRLF.length ≤ x.length + 1 ∧ i + 1 ≤ x.length) ∧
+    (∀ h : V1.Header, V1.PROXY.length + 1 + h.protocol.length ≤ 13) := by
+  refine ⟨?_, ?_, ?_, ?_, ?_, ?_, ?_⟩
+  · intro a b; have := be16_lt a b; simp only [V2.minLen]; omega
+  · intro f; cases f <;> decide
+  · intro a b; have := be16_lt a b; simp only [V2.minTlvLen]; omega
+  · intro it it' t h
+    obtain ⟨h1, h2, -, -⟩ := V2.next_ok_offset h
+    exact ⟨h1, h2⟩
+  · intro h
+    simp only [V2.Header.addressBytesEnd, V2.Header.length, List.length_drop, V2.minLen]
+    omega
+  · intro x i h
+    have := V1.firstCR_lt h
+    simp only [V1.CRLF, List.length_cons, List.length_nil]
+    omega
+  · intro h
+    simp only [V1.Header.protocol]
+    cases h.addresses <;> simp only [V1.Addresses.protocol] <;> decide
+
+/-- Assumption A3 made explicit: let `max` be the largest `usize` and let the input `x`
+satisfy `x.length + 65551 ≤ max` (on a 64-bit target: any input shorter than 2^63 bytes).
+Then every sum computed while parsing `x` (text or binary), while calling the accessors of
+the header parsed from `x`, and while iterating any TLV section no longer than `x` (in
+particular the section of that header) is at most `max`: no addition overflows, so
+overflow-checked and unchecked builds agree. -/
+theorem sums_no_overflow (max : Nat) (x : B) (hmax : x.length + 65551 ≤ max) :
+    V2.minLen + be16 (byteAt x 14) (byteAt x 15) ≤ max ∧
+    (∀ f : V2.Family, V2.minLen + f.size ≤ max) ∧
+    (∀ i, V1.firstCR x = some i → i + V1.CRLF.length ≤ max ∧ i + 1 ≤ max) ∧
+    (∀ h : V1.Header, V1.PROXY.length + 1 + h.protocol.length ≤ max) ∧
+    (∀ h, V2.parse x = .ok h →
+      h.addressBytesEnd ≤ max ∧ h.tlvBytes.length ≤ x.length) ∧
+    (∀ it : V2.Iter, it.bytes.length ≤ x.length →
+      V2.minTlvLen + be16 (byteAt (it.bytes.drop it.offset) 1) (byteAt (it.bytes.drop it.offset) 2) ≤ max ∧
+      ∀ it' t, it.next = some (.ok t, it') →
+        it'.offset = it.offset + (V2.minTlvLen + t.value.length) ∧ it'.offset ≤ max) := by
+  obtain ⟨s1, s2, s3, s4, s5, s6, s7⟩ := sums_bounded
+  refine ⟨?_, ?_, ?_, ?_, ?_, ?_⟩
+  · have := s1 (byteAt x 14) (byteAt x 15); omega
+  · intro f; have := s2 f; omega
+  · intro i h; have := s6 x i h; omega
+  · intro h; have := s7 h; omega
+  · intro h hp
+    have hl := V2.accepted_len hp
+    have hx : h.header.length ≤ x.length := by
+      obtain ⟨cmd, tr, addr, rest, trail, -, rfl, rfl⟩ := (C02.accept_iff x h).mp hp
+      simp
+    have := (s5 h).2 hl
+    refine ⟨by omega, ?_⟩
+    simp only [V2.Header.tlvBytes, List.length_drop]
+    omega
+  · intro it hit
+    refine ⟨?_, ?_⟩
+    · have := s3 (byteAt (it.bytes.drop it.offset) 1) (byteAt (it.bytes.drop it.offset) 2); omega
+    · intro it' t h
+      obtain ⟨h1, h2⟩ := s4 it it' t h
+      exact ⟨h1, by omega⟩
+
+/-- Non-vacuity of `sums_no_overflow`: `max = 2^64 - 1` and the bounds are attained
+(declared length 65535: `16 + 65535 = 65551`, `3 + 65535 = 65538`). -/
+example : ([] : B).length + 65551 ≤ 2 ^ 64 - 1 := by decide
+example : V2.minLen + be16 0xFF 0xFF = 65551 ∧ V2.minTlvLen + be16 0xFF 0xFF = 65538 ∧
+    V2.minLen + V2.Family.unix.size = 232 := by decide
+
 end C03
